@@ -6,6 +6,7 @@ CONSTANTS
   Dev_AddEmptyNameReturns = FALSE
   Dev_QuitRefusedWhenBusy = FALSE
   Dev_SocketEventStartsAll = FALSE
+  Dev_OpsAfterStop = FALSE
   Configs <- mc_Configs
   Requests <- mc_Requests
   MaxReq = 1
